@@ -13,12 +13,15 @@ META = {
     "rule": (
         "Case = generated workflow program (all operation kinds, nesting, retries, early-completing map/parallel) x dense "
         "crash plan (0-4 crashes before/after backend calls and inside user functions, in any of the first invocations) x "
+        "fault plan (for a third of the cases 1-2 failing backend calls, retriable and non-retriable classes, request or response lost) x "
         "schedules x backend flags, executed to the end against the service model. Oracle: a per-operation lifecycle "
         "automaton runs inside the model on every arriving update of the whole execution (first update is START; STEP "
         "START/RETRY/SUCCEED/FAIL transitions with <=1 START per attempt and nothing while PENDING; WAIT/CALLBACK/"
         "CHAINED_INVOKE START once; CONTEXT START then one SUCCEED|FAIL; nothing after a terminal record or for an op "
         "completed externally; type/subtype/parent/name constant per id; a child's first update after its parent "
-        "context's START; execution-level result at most once and last). Non-trivial = execution with >=1 crash or >=3 "
+        "context's START; execution-level result at most once and last); on the stream as SENT: no batch is transmitted again "
+        "after a transmission of it was applied and no consumed checkpoint token is used again. Plus fault enumeration over every backend "
+        "call of five fixed programs (backend latency 0/0.2 s). Non-trivial = execution with >=1 crash or >=3 "
         "invocations; distinct = (program shape, invocation outcomes, crash plan)."
         " Plus LinePreempt sweeps over state.py for four fixed programs (paged and unpaged responses)."
     ),
@@ -37,7 +40,11 @@ def cases(draw):
         "prog": draw(G.programs(max_stmts=6, early_completion=True)),
         "limits": draw(st.sampled_from([{}, {}, {}, {"checkpoint": 300}, {"checkpoint": 120}])),
         "backend": draw(G.backend_cfgs()),
-        "plan": {"crashes": draw(G.crash_plans(max_crashes=4, max_inv=6, max_n=14))},
+        "plan": {"crashes": draw(G.crash_plans(max_crashes=4, max_inv=6, max_n=14)),
+                 "faults": draw(st.one_of(st.just([]), st.just([]), st.lists(st.builds(
+                     lambda inv, api, cls, when: {"inv": inv, "api": api, "class": cls, "when": when},
+                     st.integers(0, 3), st.integers(0, 8), st.sampled_from(["client4xx", "validation", "server5xx", "throttle"]), st.sampled_from(["before", "after"])), min_size=1, max_size=2)))},
+        "max_raises": 3,
         "sched": draw(G.schedules()),
         "line": draw(st.sampled_from([[], [], [], ["state"], ["executor"]])),
     }
@@ -55,6 +62,31 @@ def classes(run, case):
     if any(i.get("outcome") == "crashed" for i in run.invocations):
         out.append("with-crash")
     return out
+
+
+def _fault_stage(ctx):
+    """Fault enumeration: every backend call of the first three invocations of five fixed programs fails once (retriable
+    and non-retriable classes, request lost / response lost): whatever the SDK does about it, the stream it sends stays valid."""
+    from .. import wfcheck as WC
+    from .c03 import _S
+
+    bases = [
+        ("child{step}; step", [{"op": "child", "body": [_S(1)]}, _S(2)]),
+        ("compute; child{compute; step}; wait; step", [{"op": "sleep", "secs": 0.15}, {"op": "child", "body": [{"op": "sleep", "secs": 0.15}, _S(1)]}, {"op": "wait", "secs": 1}, _S(2)]),
+        ("wfcond; callback", [{"op": "wfcond", "init": 0, "decisions": [["continue", 1], ["stop"]], "trans": "count"}, {"op": "callback", "between": [_S(3)]}]),
+        ("parallel{step,compute+step}", [{"op": "parallel", "branches": [[_S(1)], [{"op": "sleep", "secs": 0.15}, _S(2)]], "cfg": {"completion": {"min": None, "tol": 2, "pct": None}}}]),
+        ("retrying step; invoke", [{"op": "step", "beh": {"kind": "fail_by_attempt", "k": 1, "err": "UserError", "v": 1}, "sem": "least", "retry": {"kind": "table", "max": 3, "delays": [1], "nonretry": []}},
+                                   {"op": "invoke", "fn": "f", "payload": 1}]),
+    ]
+    total = 0
+    for i, (label, body) in enumerate(bases):
+        if ctx.nshards > 1 and i % ctx.nshards != ctx.shard % ctx.nshards:
+            continue
+        for lat in (0.0, 0.2):
+            base = {"prog": {"body": body}, "backend": {"response": "delta", "api_latency": lat}, "plan": {"crashes": [], "faults": []}, "sched": [{"mode": "seq"}], "line": [], "max_raises": 3}
+            total += WC.enumerate_faults(ctx, base, PROPS, nontrivial=nontrivial, classes=lambda r, c: ["fault-enumeration"] + classes(r, c),
+                                         fault_classes=("client4xx", "server5xx"), limit=120)
+    ctx.extra["fault_points_enumerated"] = total
 
 
 def _sweep_stage(ctx):
@@ -77,4 +109,4 @@ def _sweep_stage(ctx):
                               limit=ctx.budget.get("sweep_limit", 600), label="one long preemption per line of state.py: " + label)
 
 
-install(globals(), props=("C11",), cases=cases, nontrivial=nontrivial, classes=classes, stages=(_sweep_stage,))
+install(globals(), props=("C11",), cases=cases, nontrivial=nontrivial, classes=classes, stages=(_fault_stage, _sweep_stage))
